@@ -27,13 +27,17 @@ pub struct HandlerSpec {
     pub accept: Accept,
     /// bit i set => should_add_broadcast_data(addr i) is true (addresses >= 32 use bit addr%32)
     pub recipients: u32,
+    /// true: an empty slice is an item like any other (key 0xFE, version 0); false: it is an error.
+    /// Foca itself must never hand the handler an empty item nor put one on the wire.
+    #[serde(default)]
+    pub accept_empty: bool,
 }
 
 impl HandlerSpec {
     pub const OFF: HandlerSpec =
-        HandlerSpec { enabled: false, inval: Inval::SameKeyAny, accept: Accept::Always, recipients: u32::MAX };
+        HandlerSpec { enabled: false, inval: Inval::SameKeyAny, accept: Accept::Always, recipients: u32::MAX, accept_empty: false };
     pub const SIMPLE: HandlerSpec =
-        HandlerSpec { enabled: true, inval: Inval::SameKeyHigherVersion, accept: Accept::NewVersionOnly, recipients: u32::MAX };
+        HandlerSpec { enabled: true, inval: Inval::SameKeyHigherVersion, accept: Accept::NewVersionOnly, recipients: u32::MAX, accept_empty: false };
 }
 
 #[derive(Clone, Debug)]
@@ -83,6 +87,9 @@ impl Handler {
         Handler { spec, seen: BTreeMap::new(), log: Vec::new() }
     }
     pub fn key_of(data: &[u8], inval: Inval) -> Key {
+        if data.is_empty() {
+            return Key { key: 0xFE, version: 0, inval };
+        }
         Key { key: data[0], version: if data.len() > 1 { data[1] } else { 0 }, inval }
     }
     pub fn allows(spec: &HandlerSpec, id: &Id) -> bool {
@@ -100,7 +107,7 @@ impl BroadcastHandler<Id> for Handler {
             self.log.push(call);
             return Err(HErr("broadcasts disabled"));
         }
-        if data.is_empty() || data[0] == 0xFF {
+        if (data.is_empty() && !self.spec.accept_empty) || data.first() == Some(&0xFF) {
             self.log.push(call);
             return Err(HErr("bad item"));
         }
